@@ -537,6 +537,10 @@ def register(M):
     def _sio(interp, args, kw, node):
         return StringIOVal(args[0] if args else '')
 
+    for _nm, _op in (('add', 'Add'), ('sub', 'Sub'), ('mul', 'Mult'), ('truediv', 'Div'), ('pow', 'Pow'), ('floordiv', 'FloorDiv'), ('mod', 'Mod')):
+        E['operator.' + _nm] = (lambda it, a, k, n, _op=_op: M.binop(it, _op, a[0], a[1], n))
+    E['operator.neg'] = lambda it, a, k, n: M.unaryop(it, 'USub', a[0], n)
+
     @ext('math.floor')
     def _floor(interp, args, kw, node):
         return int(math.floor(conc_num(args[0], node)))
